@@ -124,7 +124,7 @@ func (s *Shared) c13Cases(tier string) []SchedCase {
 		// the deferred fragment comes FIRST and holds non-null fields
 		`{t{... @defer{req} id name}}`,
 		`{t{... @defer{kidsReq{id}} id}}`,
-		`{ts{... @defer(label:"f"){req kidReq{id}} id}}`,
+		`{ts{... @defer(label:"f"){req} id}}`,
 		// a non-deferred non-null field of the object itself fails
 		`{t{kidReq{id} ... @defer{name}}}`,
 		`{ts{req ... @defer{name}}}`,
